@@ -1250,6 +1250,8 @@ class Engine:
             if sa is not _MISSING:
                 return sa
             raise PyRaise('AttributeError', '%s has no attribute %s' % (base.cls, attr), node=node)
+        if type(base).__name__ == 'TypeObj' and base.name == 'str' and attr == 'maketrans':
+            return Builtin('str.maketrans', lambda e, a, k, n: str.maketrans(*a))
         if isinstance(base, FuncRef):
             if attr == 'cache_clear' and getattr(base, 'cached', False):
                 def clear(eng_, args, kwargs, _q=base.qualname):
@@ -1518,7 +1520,16 @@ class Engine:
             if h is not None:
                 return self.iterate_concrete(h(self, [], {}))
         if is_sym(it) and it.t == STR:
-            raise Unsupported('iteration over a symbolic string')
+            parts = getattr(it, 'parts', None) or [it]
+            chars = []
+            for p in parts:
+                if isinstance(p, str):
+                    chars.extend(list(p))
+                elif not self.pure and not self.feasible(z3.Length(p.z) != 1):
+                    chars.append(p)       # an atom that is known to be exactly one character
+                else:
+                    raise Unsupported('iteration over a symbolic string')
+            return chars
         raise Unsupported('iteration over %s' % pytype(it))
 
     # ---- calls
